@@ -46,6 +46,13 @@ def workload(tier, seed, scale=1.0):
         pairs.append(('common', a * g, b * g))
     for k in (10, 90, 91, 92, 93, 94, 185, 186, 187, 300, 1000):
         pairs.append(('fib', fib(k + 1), fib(k)))
+    # values at primitive-type boundaries (word-sized fast paths): +-2^31, +-2^63, +-2^127 and neighbours, paired with 0, 1, themselves
+    bnd = []
+    for k in (7, 15, 31, 32, 63, 64, 127, 128):
+        bnd += [(1 << k) - 1, 1 << k, (1 << k) + 1]
+    for x in bnd:
+        for y in (0, 1, x, x - 1, 2, 1 << 63, (1 << 63) - 1, 6):
+            pairs.append(('prim_boundary', x, y))
     pairs += [('pow10', 10 ** 40, 1000), ('pow2big', 3 << 200, 12), ('zero_a', 0, 3), ('zero_a_big', 0, rand_digits(rnd, 4, 0)), ('zero_b', rand_digits(rnd, 4, 0), 0)]
     for fam, a, b in pairs:
         if scale < 1.0 and rnd.random() > scale:
